@@ -916,7 +916,15 @@ fn cow(path: &str, out: &str, prof: &str) {
             for (kx, vx) in vs {
                 for (ky, vy) in vs {
                     let a = mk(vx, x);
-                    let b = mk(vy, y);
+                    // when y is a prefix of x, every other such pair of equal variants compares x with a value that SHARES its
+                    // storage (a truncated clone: same start pointer, shorter length) instead of an independently built one
+                    let b = if kx == ky && x.starts_with(y) && (x.len() + y.len()) % 2 == 0 {
+                        let mut c = a.clone();
+                        c.truncate(y.len());
+                        c
+                    } else {
+                        mk(vy, y)
+                    };
                     let _ = write!(
                         s,
                         ",\"{kx}{ky}\":{{\"eq\":{},\"ne\":{},\"cmp\":\"{}\",\"lt\":{},\"le\":{},\"gt\":{},\"ge\":{}}}",
